@@ -818,7 +818,12 @@ func directCase(r *core.Run, cid string, i int) {
 		others()
 	case "tm-high":
 		if c := g.tmCreate(nm(), k(0, 2), false); c != nil {
-			g.tmEmulated(c, k(2, 6))
+			n := k(2, 6)
+			if rng.Intn(2) == 0 {
+				n = 101 + rng.Intn(60) // more consensus states under one client than any page of a list
+				g.in.feat("client-with-more-than-100-consensus-states")
+			}
+			g.tmEmulated(c, n)
 		}
 		others()
 	case "bsc":
